@@ -92,8 +92,10 @@ func makeKnobs(d histDesc, r *prng.R) *knobs {
 	k.Huge = k.Bypass && r.Chance(70)
 	k.Twin = r.Chance(35)
 	k.VoteNoEntity = r.Chance(60)
-	if r.Chance(50) {
+	if r.Chance(35) {
 		k.Debonding, k.VotingPeriod = 1, 1 // proposals close and debonding completes on the same boundary
+	} else if r.Chance(60) {
+		k.VotingPeriod = 2 // proposals overlap: parameter changes take effect while others are open
 	}
 	max := bigPow2(61)
 	if k.Bypass {
@@ -152,6 +154,8 @@ type world struct {
 	lastVotesTag string
 
 	rt *rtScen // stream roothash
+
+	pending *violation // an invariant violation seen earlier in the history
 }
 
 type histResult struct {
@@ -295,6 +299,9 @@ func newWorld(d histDesc, run *runner) (*world, error) {
 		if k.Mock {
 			sanity = 0
 		}
+		if d.Script == "govdeposit" {
+			sanity = 0 // the harness checks the deposits invariant itself and lets the history run on
+		}
 		if d.Stream == "roothash" && d.HSeed%2 == 1 {
 			// half of the roothash histories run without the debug sanity app, so that a defect
 			// shows as the production failure (panic of the real app) rather than as a sanity report
@@ -342,6 +349,10 @@ type snap struct {
 	votes    map[uint64][]*governance.VoteEntry
 	govThr   uint8
 	signing  *stakingState.EpochSigning
+	govDep   *big.Int // governance deposits pool
+	govMin   *big.Int // governance MinProposalDeposit
+	govVP    uint64   // governance VotingPeriod
+	govUMin  uint64   // governance UpgradeMinEpochDiff
 }
 
 func (w *world) snapshot(r *muxdrv.Replica) (s *snap, err error) {
@@ -371,6 +382,11 @@ func (w *world) snapshot(r *muxdrv.Replica) (s *snap, err error) {
 		return nil, err
 	}
 	s.lastFees = lf.ToBigInt()
+	gd, err := ss.GovernanceDeposits(ctx)
+	if err != nil {
+		return nil, err
+	}
+	s.govDep = gd.ToBigInt()
 	if s.signing, err = ss.EpochSigning(ctx); err != nil {
 		return nil, err
 	}
@@ -428,6 +444,7 @@ func (w *world) snapshot(r *muxdrv.Replica) (s *snap, err error) {
 		return nil, err
 	}
 	s.govThr = gp.StakeThreshold
+	s.govMin, s.govVP, s.govUMin = gp.MinProposalDeposit.ToBigInt(), uint64(gp.VotingPeriod), uint64(gp.UpgradeMinEpochDiff)
 	return s, nil
 }
 
@@ -449,6 +466,9 @@ func (w *world) genesisSnap() *snap {
 	}
 	s.govThr = w.g.Doc.Governance.Parameters.StakeThreshold
 	s.signing = &stakingState.EpochSigning{ByEntity: map[signature.PublicKey]uint64{}}
+	s.govDep = st.GovernanceDeposits.ToBigInt()
+	gpar := w.g.Doc.Governance.Parameters
+	s.govMin, s.govVP, s.govUMin = gpar.MinProposalDeposit.ToBigInt(), uint64(gpar.VotingPeriod), uint64(gpar.UpgradeMinEpochDiff)
 	return s
 }
 
@@ -521,12 +541,32 @@ func (w *world) fail(h int64, what string, err error) {
 		w.count("observation/supplementarysanity: allowance above total supply after a burn")
 		return
 	}
+	if strings.Contains(detail, "999_supplementarysanity") && strings.Contains(detail, "expiration period greater than allowed") {
+		// A passed registry parameter change lowered MaxNodeExpiration below the expiration of
+		// already registered nodes: the state no longer passes the registry sanity check (debug
+		// sanity app; also a genesis dump of it). No production app fails during block execution.
+		w.res.outcome = "sanity app (debug): node expiration above a lowered MaxNodeExpiration"
+		w.count("observation/supplementarysanity: registered node expiration above a lowered MaxNodeExpiration")
+		return
+	}
+	if w.k.Bypass && strings.Contains(detail, "300_governance") && strings.Contains(detail, "total voting stake is zero") {
+		// DebugBypassStake only: entities with zero escrow stay validators (no stake claims), so
+		// after slashing / a reduced validator set ALL current validators can have zero active
+		// escrow -- exactly the fatal condition of theorem tally_fatal_exactly_when_no_voting_stake.
+		// Without the debug flag a slashed-to-zero entity is not electable.
+		w.res.outcome = "debug (bypass stake): every current validator has zero escrow, closing a proposal is fatal"
+		w.count("observation/bypass stake: total voting stake zero when a proposal closes")
+		return
+	}
 	if w.d.Stream == "precond" && strings.Contains(detail, errElection) {
 		w.res.outcome = "documented-election-failure"
 		w.count("precond/documented election failure")
 		return
 	}
 	w.res.outcome = "VIOLATION: " + what
+	if w.pending != nil {
+		what += " [after: " + w.pending.What + "]"
+	}
 	w.res.viol = &violation{What: what + ": " + detail, Case: w.d, Height: h, Detail: detail}
 	if w.d.Script == "govweights" && strings.Contains(detail, "divide shareNextProposer") {
 		w.res.finding = true
@@ -693,6 +733,19 @@ func (w *world) step(bp *blockPlan) bool {
 		w.fail(h, "state query failed after block", err)
 		return false
 	}
+	// the invariant that makes closing proposals safe: the governance deposits pool holds
+	// exactly the recorded deposits of the open proposals (theorem governance_deposits_total)
+	open := new(big.Int)
+	for _, p := range cur.props {
+		if p.State == governance.StateActive {
+			open.Add(open, p.Deposit.ToBigInt())
+		}
+	}
+	if open.Cmp(cur.govDep) != 0 && w.pending == nil {
+		// keep going: the broken invariant is reported at the end of the history unless it turns
+		// into an actual halt before (then the halt is reported, with this as its cause)
+		w.pending = &violation{What: fmt.Sprintf("governance deposits pool (%s) differs from the sum of the open proposals' recorded deposits (%s) after block %d", cur.govDep, open, h), Case: w.d, Height: h}
+	}
 	if w.prev != nil {
 		if cur.epoch != w.prev.epoch {
 			w.res.epochs++
@@ -738,6 +791,10 @@ func runHistory(d histDesc, run *runner, record bool) *histResult {
 		if !w.step(bp) {
 			break
 		}
+	}
+	if w.res.viol == nil && w.pending != nil && !strings.HasPrefix(w.res.outcome, "sanity app") && w.res.outcome != "documented-election-failure" {
+		w.res.outcome = "VIOLATION: " + w.pending.What
+		w.res.viol = w.pending
 	}
 	if w.res.outcome == "" {
 		w.res.outcome = "completed"
